@@ -448,6 +448,15 @@ class BuiltinMixin(CallMixin):
     # ------------------------------------------------------------------ specification functions
     def spec_special(self, e: ast.Call, st: State, ctx: Ctx) -> Any:
         name = e.func.id
+        if name == "bound":
+            # bound("x"): the local variable x exists at this point (for clauses evaluated at several program points)
+            nm = e.args[0].value
+            fr = ctx.frame
+            while fr is not None:
+                if nm in st.heap[fr.oid]:
+                    return z3.BoolVal(True)
+                fr = st.heap[fr.oid].get("$parent")
+            return z3.BoolVal(False)
         if name == "implies":
             a = z3.simplify(ops.truth(st, self.eval1(e.args[0], st, ctx)))
             if z3.is_false(a):
